@@ -223,3 +223,44 @@ CLAIMS["C08"] = dict(
          "never given a value. Recompile pattern and flag dictionary are compared with the model but recorded only (tags). "
          "DeterministicOde on its own is not covered (it has no compiler object _SC and its canary watches nothing).",
     technique="Lean 4 invariant over operation histories (induction on the op list, abstract compile semantics) + model/code correspondence + fresh-model oracle")
+CLAIMS["C17"] = dict(
+    text="Proved in Lean for every trial stream (= every seed, prior, model, kernel), every N, G, q, M and every get/continue sequence: "
+         "a stored particle is the FIRST trial with prior-density product != 0 and cost < tolerance, its stored distance is that trial's cost "
+         "(accepted_particle, run_particles); weights w1/w2 are > 0 and finite (weights_pos_finite); under quantile scheduling "
+         "tol_{g+1} = Q(dist_g) <= max dist_g < tol_g inside a call and the tolerances never increase along any get/continue sequence "
+         "(quantile_tolerances_step, quantile_tolerances_antitone); numpy's linear-interpolation quantile satisfies the one hypothesis used "
+         "(quantileLinear_le_maxL); par_order binds the trial vector by name with the 10** back-transform applied exactly once "
+         "(par_order_binds_by_name_partial, for loss objects made by create_loss; false for directly built loss objects: "
+         "par_order_direct_loss_counterexample; the proposed repair is proved for every loss object: parOrderBy_binds_by_name). "
+         "The model is tied to the code on every run by replaying the recorded trial stream of real ABC runs (rejection, tolerance list, quantile, "
+         "MNN, continue) through the Lean driver (accept/reject decisions, distances, weights, tolerances, assertions, name binding), and the "
+         "property itself is decided on the real attributes by a Lean-independent oracle (scipy prior density > 0, cost recomputed by a loss object "
+         "built from scratch equals abc.dist to 1e-9 and is below the generation's tolerance, weights positive finite, tolerances non-increasing).",
+    note="Assumed/trusted: np.quantile(l,q) <= max(l) (proved for the linear-interpolation definition, and the real np.quantile is compared with that "
+         "definition to 1e-12 on every generation); positivity of the multivariate-normal kernel density (w2 > 0, observed on every accepted trial); "
+         "prior densities >= 0 (observed); the recomputation oracle relies on pygom's integrator and loss kernels through a fresh loss object (C02/C06/C14). "
+         "Trusted: Lean kernel + Mathlib, the harness recorders (instance-level wrappers), exact float->rational conversion, driver JSON codec. "
+         "Known genuine defect on the unrepaired tree: ABC.par_order ignores the order of a directly built loss object "
+         "(proposed_fixes/C17-par-order-follows-loss-object.diff).",
+    technique="Lean 4 induction over trial streams / generations / call sequences + recorded-stream replay correspondence + recomputation oracle")
+CLAIMS["C18"] = dict(
+    category="proof",
+    text="PARTIAL (the optimiser is assumed). Proved in Lean for every number of parameters: row i of the bounds array handed to the optimiser, "
+         "np.reshape(np.append(lb, ub), (n, 2), 'F'), is (lb[i], ub[i]) (box_bounds_rows; with C order it is not: box_bounds_C_counterexample); "
+         "if the optimiser returns a point of the box it was given (fit_in_box_partial) and - when the sensitivity it is handed is the gradient of cost, "
+         "property C07 - with objective not above the start's, fit(x, lb, ub) returns a point in [lb, ub] with cost <= cost(x) (fit_contract_partial); if it returns its start when the gradient there is below pgtol, fit(theta*) = theta* on "
+         "noise-free data (fit_at_truth_partial, fit_at_truth_of_zero_residual via grad_zero_at_truth); mismatched bound lengths are rejected "
+         "(fit_rejects_bad_lengths). Tied to the code on every run: scipy.optimize.minimize as seen from base_loss is wrapped and the bounds array, "
+         "method, start, fun and jac it receives are compared with the Lean driver exactly; the assumed optimiser contract is observed on every call; "
+         "the property itself is decided by a Lean-independent oracle on real fits over catalogue and random models and five loss classes "
+         "(result inside the box exactly, recomputed cost(result) <= cost(x)(1+1e-9), fit(theta*) = theta* to 1e-5).",
+    note="ASSUMED (not proved): scipy's L-BFGS-B honours its bounds, never returns an objective above the start's when it is handed the true gradient "
+         "(with a wrong gradient it does: its line search may end on a warning and the step is accepted), and stops at a start whose "
+         "projected gradient is below pgtol = 1e-5. These are hypotheses (BoxDescent, StopsAtStationary) of the Lean theorems and are observed, "
+         "not proved, on every generated call. The A-matrix/SLSQP branch of fit is outside the property (it cannot run: np.ndarray(A)). "
+         "Trusted: Lean kernel + Mathlib, the harness wrapper of base_loss.minimize, exact float->rational conversion, driver JSON codec; the "
+         "recomputation oracle relies on pygom's integrator and loss kernels through a fresh loss object (C02/C06/C14). Genuine defects seen by this check: fit raised for GammaLoss with one "
+         "observed state (repaired in /repo, 9a6447c); fit returns a point slightly WORSE than its start for target parameters / observed states "
+         "given in non-ascending order, because the gradient handed to L-BFGS-B is permuted (the C07 index-order defect; corpus/C18/"
+         "worse-than-start-permuted-target.json; repaired in /repo by 050ae69, the C07 index-order fix).",
+    technique="Lean 4 index arithmetic (reshape 'F') + optimiser contract as explicit hypothesis + wrapped-minimize correspondence + recomputation oracle")
